@@ -210,7 +210,7 @@ RES_TABLE = {
     ("syscalls::OPENAT2_IS_SUPPORTED::{closure#0}", "syscalls::openat2", "is_ok"): "feature probe",
     ("procfs::ProcfsBase::into_path::{closure#0}", "syscalls::fstatat", "is_ok"): "existence probe of thread-self candidates",
     ("procfs::ProcfsHandle::try_from_fd::{closure#0}", "rustix::fs::accessat", "is_err"): "masking probe (subset=pid / hidepid)",
-    ("procfs::ProcfsHandle::open_follow", "procfs::ProcfsHandle::readlink", "is_err"): "not a link: falls back to the no-follow open, which redoes the lookup and reports its own error",
+    ("procfs::ProcfsBase::into_path::{closure#0}", "rustix::fs::statat", "is_ok"): "existence probe of thread-self candidates (bare call: used while describing a failed wrapper)",
     ("<syscalls::FrozenFd as std::convert::From<Fd>>::from", "utils::fd::FdExt::as_unsafe_path_unchecked", "ok"): "diagnostics only (path shown in error messages)",
     ("utils::dir::remove_all", "utils::dir::remove_inode", "is_ok"): "fast path; on failure the slow path redoes the removal and reports its own error",
     ("procfs::ProcfsHandle::new::{closure#0}", "*", "fallback"): "constructor fallback chain",
@@ -555,6 +555,9 @@ TOLERANCE_TABLE = {
     "<resolvers::PartialLookup<handle::Handle> as std::convert::TryInto<(handle::Handle, std::option::Option<std::path::PathBuf>)>>::try_into": ({ENOENT}, "partial lookup: only a missing component makes the remainder creatable"),
     "<std::result::Result<(), error::Error> as utils::dir::RmdirResultExt>::ignore_enoent": ({ENOENT}, "already removed by somebody else"),
     "procfs::ProcfsHandle::open": ({ENOENT}, "masked-handle retry only for ENOENT"),
+    "procfs::ProcfsHandle::open_follow": ({ENOENT, ENAMETOOLONG}, "readlink probe: ENOENT = not a link (no-follow open), ENAMETOOLONG = link with unreadable body (follow); direction checked by C09.R5"),
+    "resolvers::openat2::open": ({EAGAIN}, "EAGAIN: bounded retry (C10.R8)"),
+    "resolvers::procfs::openat2_resolve": ({EAGAIN}, "EAGAIN: bounded retry (C10.R8)"),
     "resolvers::openat2::resolve": ({EAGAIN, ENOSYS}, "EAGAIN: bounded retry; ENOSYS: NotSupported error"),
     "resolvers::procfs::opath_resolve": ({ENOTDIR}, "O_DIRECTORY on a trailing symlink: fall through to following it"),
     "root::RootRef::mkdir_all": ({EEXIST}, "component created concurrently / already there"),
@@ -627,7 +630,88 @@ def r7_tolerance_table(ctx):
     return out
 
 
+# ------------------------------------------------------------------------------------------ R8 / R9
+def r8_openat2_eagain(ctx):
+    """openat2 reporting EAGAIN is retried a bounded number of times and then surfaces as a safety violation."""
+    from ..cut import errno_branches
+    F = ctx.facts
+    T = ctx.tracer
+    out = []
+    n = 0
+    for b in F.fn_bodies():
+        if b.file == "src/syscalls.rs" or is_bitflags_generated(b):
+            continue
+        sites = list(b.calls("syscalls::openat2"))
+        if not sites:
+            continue
+        cfg = cfg_of(b)
+        loops = cfg.natural_loops()
+        brs = [br for br in errno_branches(b, T) if br["errno"] == EAGAIN]
+        for i, t in enumerate(sites):
+            n += 1
+            key = "%s:openat2:%d" % (fn_key(b), i)
+            inl = [(h, blks) for h, blks in loops.items() if t.bb in blks]
+            if not inl:
+                out.append(violated("C10.R8", key, t.where(), "openat2 is attempted once: EAGAIN (a rename or mount anywhere on the system during the walk) is returned raw instead of being retried"))
+                continue
+            h, blks = min(inl, key=lambda x: len(x[1]))
+            r = result_edges(b, t)
+            if not r or not r["err"]:
+                out.append(unproven("C10.R8", key, t.where(), "cannot find the error edge of openat2"))
+                continue
+            after = cfg.edge_targets_reachable(r["err"], cut_nodes=[h])
+            mine = [br for br in brs if br["bb"] in after]
+            if not mine:
+                out.append(violated("C10.R8", key, t.where(), "the error path of openat2 does not distinguish EAGAIN"))
+                continue
+            ok = True
+            why = []
+            for br in mine:
+                # the EAGAIN arm goes back to the loop header and nowhere else
+                tg = cfg.edge_targets_reachable(br["eq"], cut_nodes=[h])
+                back = any(e.dst == h or h in cfg.reachable(e.dst) & blks or e.dst in blks for e in br["eq"])
+                leaves = [x for x in tg if x not in blks and not b.blocks[x].cleanup]
+                if leaves or not back:
+                    ok = False
+                    why.append("the EAGAIN arm leaves the retry loop")
+            # the loop is driven by a finite iterator and its exhaustion produces SafetyViolation, never Ok
+            drv = [d for d in b.calls("std::iter::Iterator::next") if d.bb in blks and FINITE_ITER.search((d.argtys or [""])[0])]
+            if not drv:
+                ok = False
+                why.append("retry loop is not driven by a finite iterator")
+            else:
+                dr = result_edges(b, drv[0])
+                none_edges = [e for e in (dr["err"] if dr else []) if True]
+                ex = cfg.edge_targets_reachable(none_edges, cut_nodes=[h]) if none_edges else set()
+                sv = any(s.kind == "assign" and s.rv["k"] == "agg" and s.rv.get("adt") == "error::ErrorImpl" and s.rv.get("variant") == "SafetyViolation"
+                         for x in ex for s in b.blocks[x].stmts)
+                okret = any(s.kind == "assign" and s.lhs.local == 0 and s.rv["k"] == "agg" and s.rv.get("variant") == "Ok" for x in ex for s in b.blocks[x].stmts)
+                if not sv or okret:
+                    ok = False
+                    why.append("exhausting the retries does not produce a SafetyViolation error")
+            if ok:
+                out.append(holds("C10.R8", key, t.where(), "EAGAIN -> continue in a loop over %s; exhaustion -> SafetyViolation" % (drv[0].argtys[0][:50])))
+            else:
+                out.append(violated("C10.R8", key, t.where(), "; ".join(why)))
+    if n == 0:
+        out.append(violated("C10.R8", "openat2:sites", "", "no openat2 call sites found outside the syscall layer (anchor drift)"))
+    return out
+
+
+def r9_no_unbounded_recursion(ctx):
+    """Describing or handling a failed system call must not recurse without bound: every call-graph cycle
+    (including call-backs through conversions/formatting) carries a termination witness."""
+    from .c08 import r1_recursion_witness
+    out = []
+    for i in r1_recursion_witness(ctx):
+        i.rule = "C10.R9"
+        out.append(i)
+    return out
+
+
 RULES = [
+    ("C10.R8", r8_openat2_eagain, 2, False),
+    ("C10.R9", r9_no_unbounded_recursion, 5, False),
     ("C10.R7", r7_tolerance_table, 9, False),
     ("C10.R1", r1_panics, 20, False),
     ("C10.R2", r2_error_discipline, 100, False),
